@@ -4,6 +4,7 @@ The patch is applied in a scratch worktree of /repo; the suite (plain and -tags 
 that exits non-zero is a FALSE-ALARM candidate to be triaged (widen the accepted idioms, or document the fail-closed
 limit). Prints a JSON summary."""
 import json, os, re, shutil, subprocess, sys, tempfile
+XJSBIN = os.environ.get("XJSCHECK_BIN") or os.path.join(os.path.dirname(os.path.dirname(os.path.abspath(__file__))), "bin", "xjscheck")
 VERIF = os.path.dirname(os.path.dirname(os.path.abspath(__file__)))
 ENV = dict(os.environ, GOFLAGS="-mod=mod", GOPROXY="off", GOSUMDB="off", GOTOOLCHAIN="local")
 ENV.pop("GOWORK", None)
@@ -34,7 +35,7 @@ def main():
         shutil.copy(os.path.join(VERIF, "known_findings.json"), vout)
         fired = {}
         for p in props:
-            rc, out = sh(f"{VERIF}/bin/xjscheck -property {p} -tier quick -repo {wt} -verif {vout}", timeout=600)
+            rc, out = sh(f"{XJSBIN} -property {p} -tier quick -repo {wt} -verif {vout}", timeout=600)
             lines = [l.strip() for l in out.splitlines() if re.match(r"\s+(VIOLATED|UNRESOLVED) ", l)]
             if rc != 0:
                 fired[p] = lines or [out[-600:]]
